@@ -388,12 +388,16 @@ def trackCounts (m : Matrix) : Axis → TrackCounts
 
 /-- `is_area_in_range(AbsoluteAxis::Horizontal, col_range, row_range)` as called from `mark_area_as` -/
 def isAreaInRange (m : Matrix) (primaryAxis : Axis) (primaryRange secondaryRange : Line Int) : Outcome Bool := do
-  let pl ← (m.trackCounts primaryAxis).len
-  let pl16 ← i16 pl
-  if primaryRange.start < 0 ∨ primaryRange.«end» > pl16 then pure false else do
-    let sl ← (m.trackCounts primaryAxis.other).len
-    let sl16 ← i16 sl
-    if secondaryRange.start < 0 ∨ secondaryRange.«end» > sl16 then pure false else pure true
+  -- `a.start < 0 || a.end > len as i16 || b.start < 0 || b.end > len' as i16` short-circuits: a length is only computed
+  -- (and cast) when the tests before it are false (found by Tier T: the model used to compute the first length up front)
+  if primaryRange.start < 0 then pure false else do
+    let pl ← (m.trackCounts primaryAxis).len
+    let pl16 ← i16 pl
+    if primaryRange.«end» > pl16 then pure false
+    else if secondaryRange.start < 0 then pure false else do
+      let sl ← (m.trackCounts primaryAxis.other).len
+      let sl16 ← i16 sl
+      if secondaryRange.«end» > sl16 then pure false else pure true
 
 /-- `data.push(*self.inner.get(row, col).unwrap())` for one existing row -/
 def copyRow (g : Grid) (row : Nat) : List Nat → Outcome (List Cell)
